@@ -237,6 +237,41 @@ fn run(ctx: &Ctx) -> Part {
         acc = acc.merge(a3);
     }
 
+    // ---- rasters larger than the driver's internal row/block capacities (index-coded colours) ----------
+    {
+        let mut jobs4 = Vec::new();
+        for win in [(40u16, 35u16, 0u16, 0u16), (34, 32, 3, 3)] {
+            for o in [0u8, 3, 6] {
+                for tr in [Transport::RecSerial, Transport::Par8, Transport::Spi { len: 7 }] {
+                    jobs4.push(Cfg::tiny(40, 35, false, tr, win, o));
+                }
+            }
+        }
+        let a4 = jobs4
+            .par_iter()
+            .fold(Acc::new, |mut acc, cfg| {
+                let mut states = HashSet::new();
+                let mut hist = Vec::new();
+                for (w, h) in [(16u32, 7u32), (26, 4), (33, 4), (7, 16), (25, 5), (30, 30)] {
+                    for (x, y) in [(0i32, 0i32), (1, 2)] {
+                        let r = Rect { x, y, w, h };
+                        hist.push(Op::DrawIter(Pixels::Syms { syms: vec![Sym::Block { x, y, w, h }], base: 0x1000 }));
+                        hist.push(Op::FillContiguous { r, colors: Colors::Coded { base: 0x2000, len: Some((w * h) as u64) } });
+                        hist.push(Op::SetPixels { sx: x as u16, sy: y as u16, ex: (x as u32 + w - 1) as u16, ey: (y as u32 + h - 1) as u16, colors: Colors::Coded { base: 0x3000, len: Some((w * h) as u64) } });
+                    }
+                }
+                for op in &hist {
+                    check_one(ctx, &mut acc, cfg, std::slice::from_ref(op), &mut states);
+                }
+                check_one(ctx, &mut acc, cfg, &hist, &mut states);
+                acc.count("large_raster_configs", 1);
+                acc.states += states.len() as u64;
+                acc
+            })
+            .reduce(Acc::new, Acc::merge);
+        acc = acc.merge(a4);
+    }
+
     // ---- depth-2 programs (thorough) ------------------------------------------------------------
     if !quick {
         let mut jobs2 = Vec::new();
@@ -306,6 +341,7 @@ fn run(ctx: &Ctx) -> Part {
                         invert: false,
                         refresh: o % 4,
                         rst: false,
+                        flags: 0,
                     });
                 }
             }
